@@ -164,7 +164,8 @@ func BindAny(source, target am.Api) (string, error) {
 
 		// set if not set
 		states := tx.TargetStates()
-		if target.Is(states) {
+		// the same set, not a superset (removals have to propagate too)
+		if target.Is(states) && len(target.ActiveStates(nil)) == len(states) {
 			return
 		}
 		target.Set(states, e.Args)
